@@ -224,8 +224,10 @@ def typeFact : String → Option (Bool × Bool)
   | "make_pair_unwraps_refwrap" => some (true, true)
   | "make_tuple_unwraps_refwrap" => some (true, true)
   | "tuple_cat_value_types" => some (true, true)
-  | "tuple_cat_keeps_ref" => some (false, true)
-  | "tuple_cat_keeps_nested" => some (false, true)
+  | "tuple_cat_keeps_ref" => some (true, true)
+  | "tuple_cat_keeps_nested" => some (true, true)
+  | "tuple_cat_no_args" => some (true, true)
+  | "tuple_cat_pair_elements" => some (true, true)
   | "tuple_copy_assignable" => some (true, true)
   | "tuple_move_assignable" => some (true, true)
   | "tuple_get_by_type" => some (true, true)
@@ -343,7 +345,7 @@ def step (st : DState) (l : Line) : DState × String :=
   | "tcat" =>
     match kinds? l "k", (l.nat? "q").bind catOf, l.natList? "ts", l.list? "v" with
     | some ks, some q, some ts, some v =>
-      if ts.isEmpty || ts.sum != v.length || ks.length != v.length then bad
+      if ts.sum != v.length || ks.length != v.length then bad
       -- lvalue / const tuples are copied from: a move-only element does not compile
       else if q != .r && !ks.all (·.copyable) then out "n/a" "n/a" else
       let parts := splitBy ts v
